@@ -144,7 +144,7 @@ func (lex *Lexer) isHeredocEndSince73(p int) bool {
 		return false
 	}
 
-	for lex.data[p] == ' ' || lex.data[p] == '\t' {
+	for p < len(lex.data) && (lex.data[p] == ' ' || lex.data[p] == '\t') {
 		p++
 	}
 
